@@ -23,6 +23,7 @@ import (
 	"fmt"
 	"math/rand/v2"
 	"os"
+	"os/exec"
 	"regexp"
 	"runtime"
 	"sort"
@@ -42,6 +43,8 @@ import (
 // plumbing
 
 type fatalPanic struct{ msg string }
+
+func (f fatalPanic) Error() string { return "FATAL: " + f.msg }
 
 // qlogger is silent; Fatalf (which would os.Exit) is turned into a panic that
 // the caller recovers and classifies.
@@ -417,8 +420,8 @@ func TestVerifC31(t *testing.T) {
 		}
 	}()
 
-	nRT := vcommon.Scale(240, 9600)
-	nMal := vcommon.Scale(100, 4000)
+	nRT := vcommon.Scale(240, 6400)
+	nMal := vcommon.Scale(100, 2400)
 	r.Cases(nRT+nMal, func(i int, rng *rand.Rand) {
 		defer func() {
 			// a panic escaping a case (pebble code on a VALID batch, or a harness bug)
@@ -1229,6 +1232,81 @@ func (w *walTemplate) fabricate(records [][]byte) (*vfs.MemFS, error) {
 	return fs, nil
 }
 
+// ingestFirst reports whether the record's first entry has an ingest / excise
+// kind: replay then builds an ingestedFlushable, and a later background flush
+// may panic in its own goroutine (not recoverable), so such records are replayed
+// in a child process.
+func ingestFirst(data []byte) bool {
+	if len(data) <= batchrepr.HeaderLen {
+		return false
+	}
+	switch base.InternalKeyKind(data[batchrepr.HeaderLen]) {
+	case base.InternalKeyKindIngestSST, base.InternalKeyKindIngestSSTWithBlobs, base.InternalKeyKindExcise:
+		return true
+	}
+	return false
+}
+
+var childPanicRE = regexp.MustCompile(`(?m)^(fatal error: .*|panic: .*)$`)
+
+// walChild replays recs in a child process (this binary, TestVerifC31WALChild).
+func walChild(recs [][]byte) (msg string, died bool, err error) {
+	dir, err := os.MkdirTemp(vcommon.OutDir(), "c31walchild")
+	if err != nil {
+		return "", false, err
+	}
+	defer os.RemoveAll(dir)
+	var hx []string
+	for _, r := range recs {
+		hx = append(hx, hex.EncodeToString(r))
+	}
+	cmd := exec.Command(os.Args[0], "-test.run", "^TestVerifC31WALChild$", "-test.count", "1")
+	cmd.Env = append(os.Environ(), "VERIF_C31_WAL_CHILD="+strings.Join(hx, ","), "VERIF_OUT="+dir, "GORACE=")
+	out, runErr := cmd.CombinedOutput()
+	if runErr == nil {
+		return "", false, nil
+	}
+	if _, ok := runErr.(*exec.ExitError); !ok {
+		return "", false, runErr
+	}
+	m := childPanicRE.Find(out)
+	if m == nil {
+		return "", false, fmt.Errorf("child failed without a panic line: %.300s", out)
+	}
+	msg = strings.TrimPrefix(string(m), "panic: ")
+	if i := strings.Index(msg, " [recovered"); i >= 0 {
+		msg = msg[:i]
+	}
+	return panicPrefix(msg), true, nil
+}
+
+// TestVerifC31WALChild is the child side of walChild; it does nothing unless
+// VERIF_C31_WAL_CHILD is set. A panic (in Open or in a background flush before
+// Close returns) kills it, which is what the parent observes.
+func TestVerifC31WALChild(t *testing.T) {
+	env := os.Getenv("VERIF_C31_WAL_CHILD")
+	if env == "" {
+		t.Skip("child helper")
+	}
+	var recs [][]byte
+	for _, h := range strings.Split(env, ",") {
+		b, err := hex.DecodeString(h)
+		if err != nil {
+			t.Skip("bad input")
+		}
+		recs = append(recs, b)
+	}
+	fs, err := makeTemplate(t).fabricate(recs)
+	if err != nil {
+		t.Skip("cannot fabricate")
+	}
+	d, err := pebble.Open("db", dbOptions(fs))
+	if err == nil {
+		_ = d.Flush()
+		_ = d.Close()
+	}
+}
+
 func TestVerifC31WAL(t *testing.T) {
 	r := vcommon.NewReport("C31", "wal")
 	defer r.Finish(t)
@@ -1237,7 +1315,7 @@ func TestVerifC31WAL(t *testing.T) {
 	r.Assume("records that decode completely but describe semantically invalid spans (start >= end, undecodable range-key value) or empty user keys are skipped: reachable through the typed API, caller error / unrelated flush-time assertion")
 	tmpl := makeTemplate(t)
 	seen := map[string]int{}
-	n := vcommon.Scale(20, 800)
+	n := vcommon.Scale(20, 500)
 	r.Cases(n, func(i int, rng *rand.Rand) {
 		label, inputs := genMalformed(rng)
 		r.SetAdd("malformed_generators", label)
@@ -1280,6 +1358,29 @@ func TestVerifC31WAL(t *testing.T) {
 			fs, err := tmpl.fabricate(recs)
 			if err != nil {
 				r.Inconclusive("cannot fabricate WAL: %v", err)
+				continue
+			}
+			if ingestFirst(data) {
+				msg, died, err := walChild(recs)
+				r.Eval(1)
+				r.Count("opens_in_child_process(ingest-first record)", 1)
+				switch {
+				case err != nil:
+					r.Inconclusive("child process for an ingest-first WAL record could not be run: %v", err)
+				case died:
+					key := "Open(WAL replay)|" + msg
+					seen[key]++
+					r.Count("decode_panics_total", 1)
+					r.SetAdd("decode_panics", key)
+					if seen[key] <= 2 {
+						r.Violate("decode-panic", fmt.Sprintf("replaying a WAL whose last record is a %d-byte string with an ingest/excise first entry killed the process: %s", len(data), msg),
+							map[string]any{"api": "Open(WAL replay)", "panic": msg, "record_hex": hex.EncodeToString(data), "records": len(recs), "child": true},
+							map[string]any{"api": "Open(WAL replay)", "panic": msg})
+					}
+				default:
+					r.Count("child_open_returned(error or ok)", 1)
+				}
+				r.Distinct("wal", hex.EncodeToString(data), len(recs))
 				continue
 			}
 			var d *pebble.DB
